@@ -52,17 +52,6 @@ def run(ctx):
     vout = ctx.driver("regex", vin) if vin else []
     vdiffs, vacc, vnames = 0, collections.Counter(), collections.Counter()
     mism = [i for i, (want, got) in enumerate(zip(vexp, vout)) if want != got]
-    # A model with a known finding also has a repaired variant (DESIGN.md §3): if the code was repaired upstream,
-    # the correspondence must hold for the repaired variant on EVERY input of that function instead.
-    repairable = ("ValidatePath\t", "compose:mainRewrite\t", "compose:rewriteFilter\t")
-    repaired_fns = set()
-    if mism and all(vin[i].startswith(repairable) for i in mism):
-        fns = {vin[i].split("\t")[0] for i in mism}
-        idx = [i for i, q in enumerate(vin) if q.split("\t")[0] in fns]
-        rout = ctx.driver("regex", ["repaired:" + vin[i] for i in idx])
-        if all(vexp[i] == r for i, r in zip(idx, rout)):
-            repaired_fns = fns
-            mism = []
     for i, (q, want) in enumerate(zip(vin, vexp)):
         vnames[q.split("\t")[0]] += 1
         vacc[want if want in ("0", "1") else "str"] += 1
@@ -191,8 +180,7 @@ def run(ctx):
         "traces_validated_against_impl": len(vin) - vdiffs,
         "validator_correspondence": {"evaluations": len(vin), "diffs": vdiffs, "accepted": vacc.get("1", 0),
                                      "rejected": vacc.get("0", 0), "composed_strings": vacc.get("str", 0),
-                                     "validators": len(vnames),
-                                     "functions_matching_the_repaired_variant": sorted(repaired_fns)},
+                                     "validators": len(vnames)},
         "pipeline_runs": stats.get("runs", 0),
         "probes": len(metas),
         "leaves_enumerated": leaves_total,
